@@ -101,6 +101,35 @@ static void op_frag(const char* hex, size_t first, const char* cuts) {
   free(r.out); free_exact(all);
 }
 
+/* FRAGW <hex> <first> <cuts>: the same client; prints every wait as offset:required:buffered (at most 64) */
+static void op_fragw(const char* hex, size_t first, const char* cuts) {
+  struct xbuf all = hex_to_exact(hex);
+  size_t size = all.n, p = 0, avail = first > size ? size : first;
+  const char* c = cuts[0] == '-' ? "" : cuts;
+  struct rec r = {0};
+  int nw = 0;
+  for (size_t guard = 0; guard < 2 * size + 2; guard++) {
+    struct xbuf win = exact_copy(all.p + p, avail - p);
+    r.base = win.p; r.bias = p;
+    struct cbor_decoder_result res = cbor_stream_decode(win.p, avail - p, &rec_callbacks, &r);
+    free_exact(win);
+    if (res.status == CBOR_DECODER_FINISHED) { p += res.read; continue; }
+    if (res.status == CBOR_DECODER_NEDATA) {
+      if (nw < 64) { printf("%s%zu:%zu:%zu", nw ? " " : "", p, res.required, avail - p); nw++; }
+      if (res.required <= avail - p) break;          /* a client that waits for what it already has never makes progress */
+      size_t target = p + res.required;
+      if (target < p) target = SIZE_MAX;
+      while (avail < target && *c) { avail += strtoull(c, (char**)&c, 10); if (*c == ',') c++; if (avail > size) avail = size; }
+      if (avail < target) break;
+      continue;
+    }
+    break;
+  }
+  if (!nw) printf("none");
+  printf("\n");
+  free(r.out); free_exact(all);
+}
+
 /* ENC <fn> <value> <n> */
 static int op_enc(const char* fn, uint64_t v, size_t n) {
   unsigned char* buf = malloc(n ? n : 1);      /* exactly n usable bytes matter: ASan red zone follows when n>0 */
@@ -236,6 +265,7 @@ int gen_op(int argc, char** w) {
   if (argc == 3 && !strcmp(w[0], "UTF8ALL")) { op_utf8all(strtoull(w[1], 0, 10), w[2]); return 1; }
   if (argc == 2 && !strcmp(w[0], "SD")) { op_sd(w[1]); return 1; }
   if (argc == 4 && !strcmp(w[0], "FRAG")) { op_frag(w[1], strtoull(w[2], 0, 10), w[3]); return 1; }
+  if (argc == 4 && !strcmp(w[0], "FRAGW")) { op_fragw(w[1], strtoull(w[2], 0, 10), w[3]); return 1; }
   if (argc == 4 && !strcmp(w[0], "ENC")) return op_enc(w[1], strtoull(w[2], 0, 10), strtoull(w[3], 0, 10));
   if (argc == 2 && !strcmp(w[0], "UTF8")) { op_utf8(w[1]); return 1; }
   if (argc == 3 && !strcmp(w[0], "MUL")) { printf("%d ok=1\n", _cbor_safe_to_multiply(strtoull(w[1], 0, 10), strtoull(w[2], 0, 10))); return 1; }
